@@ -26,12 +26,16 @@ def shards(tier, seed, scale=1.0):
         out.append({'name': 'diff-%d' % s, 'kind': 'diff', 'seed': seed * 1000 + s, 'n': max(10, int(n * scale))})
     for s in range(8):
         out.append({'name': 'excl-%d' % s, 'kind': 'excl', 'seed': seed * 1000 + 300 + s, 'n': max(10, int(n * scale / 2))})
+    for s in range(4):
+        out.append({'name': 'mutate-%d' % s, 'kind': 'mutate', 'seed': seed * 1000 + 500 + s, 'n': max(5, int(n * scale / 12))})
     return out
 
 
 def run_shard(desc):
     if desc['kind'] == 'excl':
         return run_excl(desc)
+    if desc['kind'] == 'mutate':
+        return run_mutate(desc)
     return run_diff(desc)
 
 
@@ -264,6 +268,72 @@ def run_excl(desc):
                             'patterns': [A.render_path(p_) for p_ in pps], 'exclude': [A.render_path(e) for e in excl], 'cfg': cfg, 'how': how,
                             'glob': sorted(S)[:8]})
     test()
+    return out
+
+
+def run_mutate(desc):
+    """Histories: the SAME root directory is mutated between calls (a symlink becomes a real directory and back, entries
+    appear and disappear) and glob() vs globmatch(REALPATH) is compared after every step, in one process.  Anything remembered
+    about the file system from an earlier call shows up as a disagreement."""
+    import shutil
+    from hypothesis import given, strategies as st, seed
+    out = Outcome()
+    armed = desc['armed']
+    base = [('d', 'b'), ('d', 'real'), ('f', 'real/f'), ('d', 'real/sub'), ('f', 'real/sub/f'), ('f', 'b/f'), ('f', 'f')]
+    pats = [A.PathPat(False, (A.GS, A.lits('f')), False, 1), A.PathPat(False, (A.lits('b'), A.GS, A.lits('f')), False, 1),
+            A.PathPat(False, (A.GS,), False, 1), A.PathPat(False, ((A.STAR,), A.GS, (A.STAR,)), False, 1),
+            A.PathPat(False, (A.GS, A.lits('link'), A.GS), False, 1)]
+    steps = st.lists(st.tuples(st.sampled_from(['link->real', 'link=dir', 'link=file', 'nolink', 'sub->link', 'sub=dir']),
+                               st.integers(0, len(pats) - 1), st.sampled_from(['root_dir', 'cwd', 'dir_fd']),
+                               st.sampled_from([{'globstar': True}, {'globstar': True, 'dot': True}, {'globstarlong': True}, {'globstar': True, 'follow': True}])),
+                     min_size=2, max_size=8)
+
+    @seed(desc['seed'])
+    @util.hyp_settings(desc['n'], shrink=False)
+    @given(steps)
+    def test(history):
+        with FC.built_tree(base) as (root, _r):
+            hist = []
+            for op, pi, how, cfg in history:
+                link = os.path.join(root, 'b', 'link')
+                sub = os.path.join(root, 'real', 'sub')
+                if op.startswith('link') or op == 'nolink':
+                    if os.path.islink(link) or os.path.isfile(link):
+                        os.unlink(link)
+                    elif os.path.isdir(link):
+                        shutil.rmtree(link)
+                    if op == 'link->real':
+                        os.symlink('../real', link)
+                    elif op == 'link=dir':
+                        os.makedirs(os.path.join(link, 'sub'))
+                        open(os.path.join(link, 'f'), 'w').close()
+                        open(os.path.join(link, 'sub', 'f'), 'w').close()
+                    elif op == 'link=file':
+                        open(link, 'w').close()
+                else:
+                    if os.path.islink(sub):
+                        os.unlink(sub)
+                    elif os.path.isdir(sub):
+                        shutil.rmtree(sub)
+                    if op == 'sub->link':
+                        os.symlink('../b', sub)
+                    else:
+                        os.makedirs(sub)
+                        open(os.path.join(sub, 'f'), 'w').close()
+                hist.append([op, A.render_path(pats[pi]), how, cfg])
+                spec_now = [('note', 'mutated tree: see history')]
+                out.stats['mutate_steps'] += 1
+                before = len(out.violations)
+                r = compare(root, [pats[pi]], None, dict(cfg), how, out, armed, [])
+                if len(out.violations) > before:
+                    for i, (sz, b, c) in enumerate(out.violations):
+                        if c.get('tree') == []:
+                            c['history'] = list(hist)
+                            c['tree'] = base
+                    return
+            out.nontrivial(tuple(map(str, hist)))
+    test()
+    out.sample({'stream': 'mutate', 'base_tree': [e[1] for e in base], 'operations': ['link->real', 'link=dir', 'link=file', 'nolink', 'sub->link', 'sub=dir']})
     return out
 
 
